@@ -108,8 +108,32 @@ def seeded(dirs):
     return ok
 
 
+def try_patch(patch, prop, tier="quick", seed=0):
+    """Apply an arbitrary patch to a scratch worktree and run one check against it."""
+    d = tempfile.mkdtemp(prefix="vf_try_", dir="/tmp")
+    wt = os.path.join(d, "wt")
+    try:
+        subprocess.run(["git", "-C", "/repo", "worktree", "add", "--detach", "-f", wt],
+                       check=True, capture_output=True)
+        subprocess.run(["git", "-C", wt, "apply", "--3way", os.path.abspath(patch)],
+                       check=True, capture_output=True)
+        rc, out, wall = run_check(prop, wt, tier=tier, seed=seed)
+    finally:
+        subprocess.run(["git", "-C", "/repo", "worktree", "remove", "--force", wt],
+                       capture_output=True)
+        shutil.rmtree(d, ignore_errors=True)
+    kinds = [l.strip() for l in out.splitlines() if "new violation kind" in l]
+    print(prop, {0: "MISSED", 1: "CAUGHT"}.get(rc, f"INCONCLUSIVE(rc={rc})"),
+          f"{wall:.0f}s", "; ".join(kinds)[:300], flush=True)
+    if rc not in (0, 1):
+        print(out[-1500:])
+    return rc == 1
+
+
 if __name__ == "__main__":
     args = sys.argv[1:]
+    if args and args[0] == "--patch":
+        sys.exit(0 if try_patch(args[1], args[2].upper(), *args[3:4]) else 1)
     if args and args[0] == "--seeded":
         sys.exit(0 if seeded(args[1:]) else 1)
     sys.exit(0 if catalogue(args[0].upper(), args[1:]) else 1)
